@@ -20,6 +20,13 @@ type c13Case struct {
 	All     bool   `json:"all"` // use --all instead of the rule argument
 	GitHub  bool   `json:"github"`
 	Lane    string `json:"lane"`
+	Others  []c13Other `json:"others,omitempty"` // further test files in the same tree (state must not carry over between files)
+}
+
+type c13Other struct {
+	Rule    string `json:"rule"`
+	Ext     string `json:"ext"`
+	Content string `json:"content"`
 }
 
 func c13Model(rule, content string) string {
@@ -139,6 +146,11 @@ func c13Gen(r *rand.Rand, lane string) *c13Case {
 			w("")
 		}
 	}
+	if core.Chance(r, 1, 4) {
+		// the last content line is an ordinary line that ends in blanks: it must stay as it is
+		w("          data: |" + core.Pick(r, " ", "  ", "\t"))
+		w("            payload with trailing blanks" + core.Pick(r, "  ", " ", "\t "))
+	}
 	s := sb.String()
 	// end of file variations
 	switch r.Intn(6) {
@@ -157,6 +169,20 @@ func c13Gen(r *rand.Rand, lane string) *c13Case {
 	return c
 }
 
+// c13GenMulti adds 1..3 further test files to the tree.
+func c13GenMulti(r *rand.Rand, lane string) *c13Case {
+	c := c13Gen(r, lane)
+	for k := 1 + r.Intn(3); k > 0; k-- {
+		o := c13Gen(r, core.Pick(r, "title", "both", "mixed", "id"))
+		if o.Rule == c.Rule {
+			continue
+		}
+		c.Others = append(c.Others, c13Other{o.Rule, o.Ext, o.Content})
+	}
+	c.All = core.Chance(r, 3, 4)
+	return c
+}
+
 func c13Check(env *core.Env, cc core.Case) core.Verdict {
 	c := cc.(*c13Case)
 	root := emptyRoot(env)
@@ -164,6 +190,15 @@ func c13Check(env *core.Env, cc core.Case) core.Verdict {
 	rel := filepath.Join("tests", "regression", "tests", "REQUEST-"+c.Rule[:3]+"-TESTS", c.Rule+c.Ext)
 	other := filepath.Join("tests", "regression", "tests", "REQUEST-"+c.Rule[:3]+"-TESTS", "README.md")
 	tree := sut.Tree{rel: c.Content, other: "test_id: 9\n- test_title: x\n\n\n"}
+	otherRel := map[string]c13Other{}
+	for _, o := range c.Others {
+		p := filepath.Join("tests", "regression", "tests", "REQUEST-"+o.Rule[:3]+"-TESTS", o.Rule+o.Ext)
+		if p == rel {
+			continue
+		}
+		tree[p] = o.Content
+		otherRel[p] = o
+	}
 	if err := tree.Write(root); err != nil {
 		return core.Incon("cannot write tree: %v", err)
 	}
@@ -201,7 +236,13 @@ func c13Check(env *core.Env, cc core.Case) core.Verdict {
 	if d := sut.Diff(before, sut.Snap(root)); len(d) > 0 {
 		return core.Viol("check-writes", "renumber-tests --check modified the tree: %v", d)
 	}
-	if (rc.Exit != 0) != (want != c.Content) {
+	anyOtherDirty := false
+	for _, o := range otherRel {
+		if c13Model(o.Rule, o.Content) != o.Content {
+			anyOtherDirty = true
+		}
+	}
+	if (rc.Exit != 0) != (want != c.Content || (c.All && anyOtherDirty)) {
 		return core.Viol("check-disagrees", "--check exit=%d but a rewrite %s change the file (lane %s)\ncontent=%s\nexpected=%s", rc.Exit, map[bool]string{true: "would", false: "would not"}[want != c.Content], c.Lane, core.Q(c.Content), core.Q(want))
 	}
 	// 2. renumber
@@ -215,9 +256,18 @@ func c13Check(env *core.Env, cc core.Case) core.Verdict {
 	}
 	after := sut.Snap(root)
 	for _, d := range sut.Diff(before, after) {
-		if d != "~"+rel {
+		if _, isOther := otherRel[d[1:]]; d != "~"+rel && !(c.All && isOther && d[0] == '~') {
 			return core.Viol("touches-other-file", "renumber-tests changed %s", d)
 		}
+	}
+	if c.All {
+		for p, o := range otherRel {
+			gotO, _ := sut.Read(root, p)
+			if wantO := c13Model(o.Rule, o.Content); gotO != wantO {
+				return core.Viol("wrong-output:second-file", "renumber-tests --all wrote unexpected bytes into %s (one of %d files)\n%s", p, len(otherRel)+1, firstDiff(gotO, wantO))
+			}
+		}
+		v.Counts["files_rewritten"] += len(otherRel)
 	}
 	// 3. idempotence
 	r2 := cli(env, root, nil, args(false)...)
@@ -241,14 +291,18 @@ func init() {
 		Rule: "generated ftw-style YAML test files (0..12 tests; lanes id-only, title-only, both, both reversed, mixed; odd id values; CRLF; missing/extra final newlines, trailing white-space lines; .yaml/.yml; single rule argument or --all; text or github output) are run through the built CLI: --check, renumber, renumber again, --check. " +
 			"Oracle: independent line model (n-th test_id -> n, n-th test_title -> <rule>-n, other line content equal, trailing blank lines removed, one final newline), byte comparison, snapshot of the whole tree. Non-trivial = file with >= 2 numbered fields; distinct by case hash. Domain: every file has at least one non-blank line; each line carries at most one of the two keys, written 'key:<space|tab>value'.",
 		Cases: func(env *core.Env, rng *rand.Rand) []core.Case {
-			n := env.N(240, 6000)
+			n := env.N(600, 12000)
 			var cs []core.Case
 			for i := 0; i < n; i++ {
 				lane := ""
 				if i%4 == 0 {
 					lane = "mixed"
 				}
-				cs = append(cs, c13Gen(rng, lane))
+				if i%3 == 2 {
+					cs = append(cs, c13GenMulti(rng, lane))
+				} else {
+					cs = append(cs, c13Gen(rng, lane))
+				}
 			}
 			return cs
 		},
